@@ -122,7 +122,8 @@ StepCbS(e) ==
                    V("CallbackOrder", "global_callback_out_of_request_order"))
        \cup FailIf(e.k = "g" /\ ~g.lied /\ g.family = "conc" /\ ~Pfx(NonF(gs2), NonF(g.app)),
                    V("CallbackOrder", "global_callback_out_of_request_order"))
-       \cup FailIf(e.k = "g" /\ ~g.lied /\ e.rt # e.xt, V("PerConnectionFIFO", "response_of_wrong_type_delivered"))
+       \* (whatever the peer does: checking the type is the client's own duty)
+       \cup FailIf(e.k = "g" /\ e.rt # e.xt, V("PerConnectionFIFO", "response_of_wrong_type_delivered"))
        \cup FailIf(~g.lied /\ e.x # e.r, V("PerConnectionFIFO", "response_delivered_to_another_request"))
        \cup FailIf(e.k = "r" /\ recv /\ ~(g.last.ev = "CbE" /\ g.last.k = "g" /\ g.last.r = e.r),
                    V("CallbackOrder", "request_callback_not_right_after_its_global_callback"))
